@@ -194,28 +194,26 @@ theorem fdClose_val (cfg : Cfg) (H : Host σ) (s s' : St σ) (n : Nat) (r : Res)
   · simp at h; obtain ⟨h1, h2⟩ := h; subst h1 h2; left; simp [BADF, Gen.Wasi.WASI_ERRNO_BADF]
   · rename_i d hd0
     have hd := (getDesc_some hd0).1
-    · split at h
-      · simp at h; obtain ⟨h1, h2⟩ := h; subst h1 h2; left; simp
-      · simp at h; obtain ⟨h1, h2⟩ := h; subst h1 h2; left; simp [BADF, Gen.Wasi.WASI_ERRNO_BADF]
-      · rename_i h' u hr
-        right
-        refine ⟨d, hd, ?_⟩
-        cases hp : d.path with
-        | none =>
-          simp [hp, setDesc] at h
+    split at h
+    · simp at h; obtain ⟨h1, h2⟩ := h; subst h1 h2; left; simp
+    · simp at h; obtain ⟨h1, h2⟩ := h; subst h1 h2; left; simp [BADF, Gen.Wasi.WASI_ERRNO_BADF]
+    · right
+      refine ⟨d, hd, ?_⟩
+      split at h
+      · rename_i hp
+        simp [setDesc] at h
+        obtain ⟨h1, h2⟩ := h
+        subst h1 h2
+        simp [hp]
+      · rename_i hpp hp
+        rcases freeHeap_eq s.heap hpp with ⟨p, hl, hf⟩ | ⟨_, hf⟩ | ⟨_, hf⟩
+        · rw [hf] at h
+          simp [setDesc] at h
           obtain ⟨h1, h2⟩ := h
           subst h1 h2
-          simp
-        | some hpp =>
-          simp only [hp] at h
-          rcases freeHeap_eq s.heap hpp with ⟨p, hl, hf⟩ | ⟨_, hf⟩ | ⟨_, hf⟩
-          · rw [hf] at h
-            simp [setDesc] at h
-            obtain ⟨h1, h2⟩ := h
-            subst h1 h2
-            simp [hl]
-          · rw [hf] at h; simp at h
-          · rw [hf] at h; simp at h
+          simp [hl, hp]
+        · rw [hf] at h; simp at h
+        · rw [hf] at h; simp at h
 
 theorem getElem?_modify_some {α : Type} (l : List α) (n : Nat) (f : α → α) (i : Nat) (d' : α)
     (h : (l.modify n f)[i]? = some d') : ∃ e, l[i]? = some e ∧ d' = if n = i then f e else e := by
@@ -288,3 +286,392 @@ theorem InvW_fdClose (cfg : Cfg) (H : Host σ) (s s' : St σ) (n : Nat) (r : Res
       · have hde := hne hin
         subst hde
         exact hi.dirPath i d' he hdir
+
+/-! ## fd_readdir -/
+
+theorem derefPath_val {heap : List Cell} {p : Option HeapId} {bs : Bytes} (h : derefPath heap p = .val bs) :
+    ∃ hp, p = some hp ∧ heap[hp]? = some (.live bs) := by
+  unfold derefPath at h
+  cases p with
+  | none => simp at h
+  | some hp =>
+    refine ⟨hp, rfl, ?_⟩
+    simp only at h
+    rcases readHeap_eq heap hp with ⟨q, hl, hr⟩ | ⟨_, hr⟩ | ⟨_, hr⟩
+    · rw [hr] at h; cases h; exact hl
+    · rw [hr] at h; cases h
+    · rw [hr] at h; cases h
+
+/-- what the lazy `opendir` does to the table -/
+theorem readdirOpen_ok (cfg : Cfg) (H : Host σ) (s s1 : St σ) (n : Nat) (d : Desc) (cookie : Nat)
+    (h : readdirOpen cfg H s n d cookie = .val (.ok s1)) :
+    s1.heap = s.heap ∧ s1.mem = s.mem ∧
+    (s1.fds = s.fds ∨
+      ∃ dh hp p, d.dir = none ∧ d.path = some hp ∧ s.heap[hp]? = some (.live p) ∧
+        s1.fds = s.fds.modify n (fun e => { e with dir := some dh })) := by
+  unfold readdirOpen at h
+  split at h
+  · cases h; exact ⟨rfl, rfl, Or.inl rfl⟩
+  · rename_i hdir
+    split at h
+    · cases h
+    · split at h
+      · cases h
+      · cases h
+      · cases h
+      · rename_i p hp
+        obtain ⟨hpp, hpe, hl⟩ := derefPath_val hp
+        split at h
+        · cases h
+        · split at h
+          · cases h
+          · cases h
+          · rename_i h' dh hop
+            cases h
+            refine ⟨rfl, rfl, Or.inr ⟨dh, hpp, p, hdir, hpe, hl, rfl⟩⟩
+
+theorem readdirOpen_error (cfg : Cfg) (H : Host σ) (s s1 : St σ) (n : Nat) (d : Desc) (cookie : Nat) (r : Res)
+    (h : readdirOpen cfg H s n d cookie = .val (.error (s1, r))) :
+    s1.heap = s.heap ∧ s1.mem = s.mem ∧ s1.fds = s.fds := by
+  unfold readdirOpen at h
+  split at h
+  · cases h
+  · split at h
+    · cases h; exact ⟨rfl, rfl, rfl⟩
+    · split at h
+      · cases h
+      · cases h
+      · cases h
+      · split at h
+        · cases h; exact ⟨rfl, rfl, rfl⟩
+        · split at h
+          · cases h; exact ⟨rfl, rfl, rfl⟩
+          · cases h; exact ⟨rfl, rfl, rfl⟩
+          · cases h
+
+/-- what a returning `fd_readdir` did to the table -/
+theorem fdReaddir_val (cfg : Cfg) (H : Host σ) (s s' : St σ) (n buf len cookie used : Nat) (r : Res)
+    (h : fdReaddir cfg H s n buf len cookie used = .val (s', r)) :
+    s'.heap = s.heap ∧
+    (s'.fds = s.fds ∨
+      ∃ d dh hp p, s.fds[n]? = some d ∧ d.dir = none ∧ d.path = some hp ∧ s.heap[hp]? = some (.live p) ∧
+        s'.fds = s.fds.modify n (fun e => { e with dir := some dh })) := by
+  unfold fdReaddir at h
+  split at h
+  · cases h; exact ⟨rfl, Or.inl rfl⟩
+  · rename_i d hd0
+    have hd := (getDesc_some hd0).1
+    split at h
+    · cases h
+    · cases h
+    · cases h
+    · rename_i r' hro
+      cases h
+      obtain ⟨h1, _, h3⟩ := readdirOpen_error cfg H s s' n d cookie r hro
+      exact ⟨h1, Or.inl h3⟩
+    · rename_i s1 hro
+      obtain ⟨h1, _, h3⟩ := readdirOpen_ok cfg H s s1 n d cookie hro
+      have key : s1.heap = s.heap ∧ (s1.fds = s.fds ∨
+          ∃ d dh hp p, s.fds[n]? = some d ∧ d.dir = none ∧ d.path = some hp ∧ s.heap[hp]? = some (.live p) ∧
+            s1.fds = s.fds.modify n (fun e => { e with dir := some dh })) := by
+        refine ⟨h1, ?_⟩
+        rcases h3 with h3 | ⟨dh, hp, p, a, b, c, e⟩
+        · exact Or.inl h3
+        · exact Or.inr ⟨d, dh, hp, p, hd, a, b, c, e⟩
+      simp only at h
+      split at h
+      · cases h
+      · cases h
+      · cases h
+      · split at h
+        · split at h
+          · cases h
+          · cases h
+          · cases h
+          · cases h; exact key
+        · cases h; exact key
+
+theorem InvW_fdReaddir (cfg : Cfg) (H : Host σ) (s s' : St σ) (n buf len cookie used : Nat) (r : Res)
+    (h : fdReaddir cfg H s n buf len cookie used = .val (s', r)) (hi : InvW s) : InvW s' := by
+  obtain ⟨hh, hf⟩ := fdReaddir_val cfg H s s' n buf len cookie used r h
+  rcases hf with hf | ⟨d, dh, hp, p, hd, hdir, hpath, hl, hf⟩
+  · exact InvW_of_frame hf hh hi
+  · have hsrc : ∀ (i : Nat) (d' : Desc), s'.fds[i]? = some d' →
+        ∃ e, s.fds[i]? = some e ∧ d'.path = e.path ∧ d'.fd = e.fd ∧ (i ≠ n → d' = e) ∧ (i = n → e = d) := by
+      intro i d' hd'
+      rw [hf] at hd'
+      obtain ⟨e, he, hde⟩ := getElem?_modify_some _ _ _ _ _ hd'
+      refine ⟨e, he, ?_, ?_, ?_, ?_⟩
+      · subst hde; split <;> rfl
+      · subst hde; split <;> rfl
+      · intro hne; subst hde; simp [Ne.symm hne]
+      · intro heq; subst heq; rw [hd] at he; cases he; rfl
+    constructor
+    · intro i d' h0 hd' hpath'
+      obtain ⟨e, he, hpe, _, _, _⟩ := hsrc i d' hd'
+      rw [hh]; rw [hpe] at hpath'; exact hi.valid i e h0 he hpath'
+    · intro i j d1 d2 h0 hd1 hd2 hp1 hp2
+      obtain ⟨e1, he1, hpe1, _, _, _⟩ := hsrc i d1 hd1
+      obtain ⟨e2, he2, hpe2, _, _, _⟩ := hsrc j d2 hd2
+      rw [hpe1] at hp1; rw [hpe2] at hp2
+      exact hi.inj i j e1 e2 h0 he1 he2 hp1 hp2
+    · intro i d' h0 hd' hpath' hfr
+      obtain ⟨e, he, hpe, hfe, hne, heq⟩ := hsrc i d' hd'
+      rw [hh] at hfr
+      by_cases hin : i = n
+      · -- the listed descriptor's path is live, so it is not freed
+        have hed := heq hin
+        subst hed
+        rw [hpe, hpath] at hpath'
+        cases hpath'
+        rw [hl] at hfr; cases hfr
+      · have hde := hne hin
+        subst hde
+        exact hi.freedClosed i d' h0 he hpath' hfr
+    · intro i hi3
+      rcases hi.std i hi3 with hs | hs
+      · by_cases hin : i = n
+        · -- descriptors 0–2 have no path, so they are never listed
+          subst hin; rw [hd] at hs; cases hs; simp at hpath
+        · left; rw [hf, List.getElem?_modify, hs]; simp [Ne.symm hin]
+      · by_cases hin : i = n
+        · subst hin; rw [hd] at hs; cases hs; simp [Desc.empty] at hpath
+        · right; rw [hf, List.getElem?_modify, hs]; simp [Ne.symm hin]
+    · intro i d' hd' hdir'
+      obtain ⟨e, he, hpe, _, hne, heq⟩ := hsrc i d' hd'
+      by_cases hin : i = n
+      · have hed := heq hin
+        subst hed
+        rw [hpe, hpath]; simp
+      · have hde := hne hin
+        subst hde
+        exact hi.dirPath i d' he hdir'
+
+/-! ## path_open -/
+
+/-- a returning `path_open` either leaves the table alone or appended exactly one descriptor -/
+theorem pathOpen_val (cfg : Cfg) (H : Host σ) (s s' : St σ) (a b c d e f g hh i : Nat) (r : Res)
+    (h : pathOpen cfg H s a b c d e f g hh i = .val (s', r)) :
+    (s'.fds = s.fds ∧ s'.heap = s.heap ∧ s'.mem = s.mem) ∨
+    (∃ h' nfd p s2 idx w', tableAdd { s with host := h' } nfd p = some (s2, idx) ∧
+        s' = { s2 with mem := w'.mem } ∧ (⟨s.mem, []⟩ : MW).store i (leBytes 4 idx) = .val w' ∧
+        r = .errno 0 w'.log) := by
+  unfold pathOpen at h
+  simp only at h
+  split at h
+  · cases h
+  · cases h
+  · cases h
+  · cases h; exact Or.inl ⟨rfl, rfl, rfl⟩
+  · rename_i p hpro
+    split at h
+    · cases h; exact Or.inl ⟨rfl, rfl, rfl⟩
+    · cases h; exact Or.inl ⟨rfl, rfl, rfl⟩
+    · rename_i h' nfd hop
+      split at h
+      · cases h; exact Or.inl ⟨rfl, rfl, rfl⟩
+      · split at h
+        · cases h; exact Or.inl ⟨rfl, rfl, rfl⟩
+        · rename_i s2 idx hadd
+          split at h
+          · cases h
+          · cases h
+          · cases h
+          · rename_i w' hst
+            cases h
+            exact Or.inr ⟨h', nfd, p, s2, idx, w', hadd, rfl, hst, rfl⟩
+
+theorem InvW_pathOpen (cfg : Cfg) (H : Host σ) (s s' : St σ) (a b c d e f g hh i : Nat) (r : Res)
+    (h : pathOpen cfg H s a b c d e f g hh i = .val (s', r)) (hi : InvW s) : InvW s' := by
+  rcases pathOpen_val cfg H s s' a b c d e f g hh i r h with ⟨hf, hheap, _⟩ | ⟨h', nfd, p, s2, idx, w', hadd, hs', _, _⟩
+  · exact InvW_of_frame hf hheap hi
+  · have h1 : InvW ({ s with host := h' } : St σ) := @InvW_of_frame _ s { s with host := h' } rfl rfl hi
+    have h2 : InvW s2 := InvW_tableAdd hadd h1
+    subst hs'
+    exact @InvW_of_frame _ s2 { s2 with mem := w'.mem } rfl rfl h2
+
+/-! ## every call preserves the invariant -/
+
+theorem step_InvW (cfg : Cfg) (H : Host σ) (abi : Abi) (s s' : St σ) (c : Call) (r : Res)
+    (h : step cfg H abi s c = .val (s', r)) (hi : InvW s) : InvW s' := by
+  cases c with
+  | ro c =>
+    obtain ⟨hf, hh⟩ := step_ro_frame cfg H abi s s' c r h
+    exact InvW_of_frame hf hh hi
+  | fdClose n => exact InvW_fdClose cfg H s s' n r h hi
+  | fdReaddir n buf len cookie used => exact InvW_fdReaddir cfg H s s' n buf len cookie used r h hi
+  | pathOpen a b c d e f g hh i => exact InvW_pathOpen cfg H s s' a b c d e f g hh i r h hi
+
+theorem InvW_initTable (mem : Mem) (host : σ) : InvW (initTable mem host) := by
+  constructor
+  · intro i d h hd hp
+    simp only [initTable, tableAddNoPath, List.nil_append, List.cons_append] at hd
+    match i, hd with
+    | 0, hd => simp at hd; subst hd; simp at hp
+    | 1, hd => simp at hd; subst hd; simp at hp
+    | 2, hd => simp at hd; subst hd; simp at hp
+    | k + 3, hd => simp at hd
+  · intro i j d d' h hd _ hp _
+    simp only [initTable, tableAddNoPath, List.nil_append, List.cons_append] at hd
+    match i, hd with
+    | 0, hd => simp at hd; subst hd; simp at hp
+    | 1, hd => simp at hd; subst hd; simp at hp
+    | 2, hd => simp at hd; subst hd; simp at hp
+    | k + 3, hd => simp at hd
+  · intro i d h hd hp
+    simp only [initTable, tableAddNoPath, List.nil_append, List.cons_append] at hd
+    match i, hd with
+    | 0, hd => simp at hd; subst hd; simp at hp
+    | 1, hd => simp at hd; subst hd; simp at hp
+    | 2, hd => simp at hd; subst hd; simp at hp
+    | k + 3, hd => simp at hd
+  · intro i hi3
+    left
+    simp only [initTable, tableAddNoPath, List.nil_append, List.cons_append]
+    match i, hi3 with
+    | 0, _ => rfl
+    | 1, _ => rfl
+    | 2, _ => rfl
+  · intro i d hd hdir
+    simp only [initTable, tableAddNoPath, List.nil_append, List.cons_append] at hd
+    match i, hd with
+    | 0, hd => simp at hd; subst hd; simp at hdir
+    | 1, hd => simp at hd; subst hd; simp at hdir
+    | 2, hd => simp at hd; subst hd; simp at hdir
+    | k + 3, hd => simp at hd
+
+theorem InvW_addPreopen (s : St σ) (path : Bytes) (hi : InvW s) : InvW (addPreopen s path) := by
+  unfold addPreopen
+  split
+  · rename_i s' idx hadd; exact InvW_tableAdd hadd hi
+  · exact hi
+
+/-- the invariant along a whole history -/
+theorem run_InvW (cfg : Cfg) (H : Host σ) (hist : List (Abi × Call)) :
+    ∀ (s s' : St σ) (rs : List Res), run cfg H s hist = .val (s', rs) → InvW s → InvW s' := by
+  induction hist with
+  | nil => intro s s' rs h hi; simp [run] at h; obtain ⟨h1, _⟩ := h; subst h1; exact hi
+  | cons ac rest ih =>
+    intro s s' rs h hi
+    obtain ⟨abi, c⟩ := ac
+    simp only [run] at h
+    cases hs : step cfg H abi s c with
+    | val x =>
+      obtain ⟨s1, r⟩ := x
+      rw [hs] at h
+      simp only [Out.bind_val] at h
+      cases hr : run cfg H s1 rest with
+      | val y =>
+        obtain ⟨s2, rs2⟩ := y
+        rw [hr] at h
+        simp only [Out.bind_val, Out.val.injEq, Prod.mk.injEq] at h
+        obtain ⟨h1, _⟩ := h
+        subst h1
+        exact ih s1 s2 rs2 hr (step_InvW cfg H abi s s1 c r hs hi)
+      | trap t => rw [hr] at h; simp at h
+      | ub k => rw [hr] at h; simp at h
+      | oof => rw [hr] at h; simp at h
+    | trap t => rw [hs] at h; simp at h
+    | ub k => rw [hs] at h; simp at h
+    | oof => rw [hs] at h; simp at h
+
+/-! ## the strong invariant (needs `path = NULL` after `free`) -/
+
+/-- every path stored in the table is live -/
+def Live (s : St σ) : Prop :=
+  ∀ (i : Nat) (d : Desc) (h : Nat), s.fds[i]? = some d → d.path = some h → ∃ p, s.heap[h]? = some (Cell.live p)
+
+theorem InvS_iff (s : St σ) : InvS s ↔ InvW s ∧ Live s :=
+  ⟨fun h => ⟨h.toInvW, h.live⟩, fun h => ⟨h.1, h.2⟩⟩
+
+theorem Live_of_frame {s s' : St σ} (hf : s'.fds = s.fds) (hh : s'.heap = s.heap) (hl : Live s) : Live s' := by
+  intro i d h; rw [hf, hh]; exact hl i d h
+
+theorem Live_tableAdd {s s' : St σ} {fd : Int} {path : Bytes} {idx : Nat}
+    (h : tableAdd s fd path = some (s', idx)) (hi : InvW s) (hl : Live s) : Live s' := by
+  obtain ⟨_, hf, hh, _, _⟩ := tableAdd_spec s s' fd path idx h
+  intro i d hp hd hpath
+  rw [hf, getElem?_snoc] at hd
+  rw [hh]
+  rcases hd with ⟨_, hd⟩ | ⟨_, hd⟩
+  · obtain ⟨p, hp'⟩ := hl i d hp hd hpath
+    have hv := hi.valid i d hp hd hpath
+    exact ⟨p, by rw [List.getElem?_append_left hv]; exact hp'⟩
+  · subst hd
+    have : s.heap.length = hp := by simpa using hpath
+    subst this
+    exact ⟨cstr path, by simp⟩
+
+theorem Live_fdClose (cfg : Cfg) (hc : cfg.closeClearsPath = true) (H : Host σ) (s s' : St σ) (n : Nat) (r : Res)
+    (h : fdClose cfg H s n = .val (s', r)) (hi : InvW s) (hl : Live s) : Live s' := by
+  rcases fdClose_val cfg H s s' n r h with ⟨hf, hh, _, _⟩ | ⟨d, hd, _, _, hf, hheap⟩
+  · exact Live_of_frame hf hh hl
+  · intro i d' hp hd' hpath
+    rw [hf] at hd'
+    obtain ⟨e, he, hde⟩ := getElem?_modify_some _ _ _ _ _ hd'
+    by_cases hin : n = i
+    · subst hde; simp [hin, hc] at hpath
+    · simp only [hin, ↓reduceIte] at hde
+      subst hde
+      obtain ⟨p, hp'⟩ := hl i d' hp he hpath
+      rcases hheap with ⟨_, hh⟩ | ⟨hpp, q, hdp, _, hh⟩
+      · exact ⟨p, by rw [hh]; exact hp'⟩
+      · refine ⟨p, ?_⟩
+        rw [hh, List.getElem?_set]
+        by_cases heq : hpp = hp
+        · subst heq
+          exact absurd (hi.inj i n d' d hpp he hd hpath hdp).symm hin
+        · simp [heq]; exact hp'
+
+theorem Live_fdReaddir (cfg : Cfg) (H : Host σ) (s s' : St σ) (n buf len cookie used : Nat) (r : Res)
+    (h : fdReaddir cfg H s n buf len cookie used = .val (s', r)) (hl : Live s) : Live s' := by
+  obtain ⟨hh, hf⟩ := fdReaddir_val cfg H s s' n buf len cookie used r h
+  rcases hf with hf | ⟨d, dh, hp, p, hd, hdir, hpath, hlv, hf⟩
+  · exact Live_of_frame hf hh hl
+  · intro i d' h0 hd' hpath'
+    rw [hf] at hd'
+    obtain ⟨e, he, hde⟩ := getElem?_modify_some _ _ _ _ _ hd'
+    rw [hh]
+    have : d'.path = e.path := by subst hde; split <;> rfl
+    rw [this] at hpath'
+    exact hl i e h0 he hpath'
+
+theorem Live_pathOpen (cfg : Cfg) (H : Host σ) (s s' : St σ) (a b c d e f g hh i : Nat) (r : Res)
+    (h : pathOpen cfg H s a b c d e f g hh i = .val (s', r)) (hi : InvW s) (hl : Live s) : Live s' := by
+  rcases pathOpen_val cfg H s s' a b c d e f g hh i r h with ⟨hf, hheap, _⟩ | ⟨h', nfd, p, s2, idx, w', hadd, hs', _, _⟩
+  · exact Live_of_frame hf hheap hl
+  · have h1 : InvW ({ s with host := h' } : St σ) := @InvW_of_frame _ s { s with host := h' } rfl rfl hi
+    have l1 : Live ({ s with host := h' } : St σ) := @Live_of_frame _ s { s with host := h' } rfl rfl hl
+    have l2 : Live s2 := Live_tableAdd hadd h1 l1
+    subst hs'
+    exact @Live_of_frame _ s2 { s2 with mem := w'.mem } rfl rfl l2
+
+theorem step_InvS (cfg : Cfg) (hc : cfg.closeClearsPath = true) (H : Host σ) (abi : Abi) (s s' : St σ)
+    (c : Call) (r : Res) (h : step cfg H abi s c = .val (s', r)) (hi : InvS s) : InvS s' := by
+  rw [InvS_iff] at hi ⊢
+  refine ⟨step_InvW cfg H abi s s' c r h hi.1, ?_⟩
+  cases c with
+  | ro c =>
+    obtain ⟨hf, hh⟩ := step_ro_frame cfg H abi s s' c r h
+    exact Live_of_frame hf hh hi.2
+  | fdClose n => exact Live_fdClose cfg hc H s s' n r h hi.1 hi.2
+  | fdReaddir n buf len cookie used => exact Live_fdReaddir cfg H s s' n buf len cookie used r h hi.2
+  | pathOpen a b c d e f g hh i => exact Live_pathOpen cfg H s s' a b c d e f g hh i r h hi.1 hi.2
+
+theorem InvS_initTable (mem : Mem) (host : σ) : InvS (initTable mem host) := by
+  rw [InvS_iff]
+  refine ⟨InvW_initTable mem host, ?_⟩
+  intro i d h hd hp
+  simp only [initTable, tableAddNoPath, List.nil_append, List.cons_append] at hd
+  match i, hd with
+  | 0, hd => simp at hd; subst hd; simp at hp
+  | 1, hd => simp at hd; subst hd; simp at hp
+  | 2, hd => simp at hd; subst hd; simp at hp
+  | k + 3, hd => simp at hd
+
+theorem InvS_addPreopen (s : St σ) (path : Bytes) (hi : InvS s) : InvS (addPreopen s path) := by
+  rw [InvS_iff] at hi ⊢
+  unfold addPreopen
+  split
+  · rename_i s' idx hadd; exact ⟨InvW_tableAdd hadd hi.1, Live_tableAdd hadd hi.1 hi.2⟩
+  · exact hi
